@@ -98,6 +98,9 @@ theorem dArith_pow (a b : K) : (dArith I C t).pow a b = I.bin A.pow.idx a b := b
 theorem dArith_fn (n : String) (u : Nat) (h : findUnaryOp t n.toList = .ok u) (a : K) :
     (dArith I C t).fn n a = I.un u a := by
   simp only [dArith, h]
+theorem dArith_bop (n : String) (o : DBin) (h : findBinOp t n.toList = .ok o) (a b : K) :
+    (dArith I C t).bop n a b = I.bin o.idx a b := by
+  simp only [dArith, h]
 theorem dArith_zero : (dArith I C t).zero = C.zero := rfl
 theorem dArith_one : (dArith I C t).one = C.one := rfl
 theorem dArith_two : (dArith I C t).two = C.two := rfl
@@ -665,6 +668,46 @@ theorem gsub (a b r : DeepEx K) (va vb : K) (ha : Rep I T ρ a va) (hb : Rep I T
       exact h
     exact repS_of_yields I T ρ r _ _ _ h' (yields_bin I t a' b' _ ρ _ A.sub A.hsub
       (A.assoc A.sub (by simp)) U.av U.bv U.an U.bn U.aA U.bA U.nd U.uu va vb U.ae U.be)
+      hfold U.strict U.sub
+
+omit L in
+/-- `operate_bin` with any operator of the table on represented operands (the comparisons, `if`,
+    `else`: no shortcuts) -/
+theorem gbin (repr : Str) (op : DBin) (hop : findBinOp t repr = .ok op)
+    (hopA : op.comm = true → ∀ x y z, I.bin op.idx (I.bin op.idx x y) z = I.bin op.idx x (I.bin op.idx y z))
+    (a b r : DeepEx K) (va vb : K) (ha : Rep I T ρ a va) (hb : Rep I T ρ b vb)
+    (h : a.operateBin I t b repr = .ok r) :
+    RepS I T ρ r (I.bin op.idx va vb) ∧ r.vars = unionVars a.vars b.vars := by
+  have hfold := operateBin_folded I t a b r repr h ha.folded hb.folded
+  unfold DeepEx.operateBin at h
+  rw [hop] at h
+  simp only [] at h
+  unfold operateBinOp at h
+  cases hu : varNamesUnion a b with
+  | error e => rw [hu] at h; cases h
+  | ok p =>
+    obtain ⟨a', b'⟩ := p
+    have U := gunion I T ρ C A.eqv_sound a b a' b' va vb ha hb hu
+    rw [hu] at h
+    simp only [] at h
+    have hself : varNamesUnion a' b' = .ok (a', b') := by
+      have hra : a'.resetVars (unionVars a.vars b.vars) = some a' := reset_self _ U.nd a' U.ag
+      have hrb : b'.resetVars (unionVars a.vars b.vars) = some b' := reset_self _ U.nd b' U.bg
+      unfold varNamesUnion
+      simp only []
+      change (match a'.resetVars (unionVars a'.vars b'.vars), b'.resetVars (unionVars a'.vars b'.vars) with
+        | some a', some b' => Except.ok (a', b')
+        | _, _ => Except.error (Fail.panic "deep.rs:reset_vars unwrap")) = _
+      rw [U.av, U.bv, U.uu, hra, hrb]
+    have h' : a'.operateBin I t b' repr = .ok r := by
+      unfold DeepEx.operateBin
+      rw [hop]
+      simp only []
+      unfold operateBinOp
+      rw [hself]
+      exact h
+    exact repS_of_yields I T ρ r _ _ _ h' (yields_bin I t a' b' _ ρ _ op hop
+      hopA U.av U.bv U.an U.bn U.aA U.bA U.nd U.uu va vb U.ae U.be)
       hfold U.strict U.sub
 
 end
